@@ -80,6 +80,13 @@ func (alloc *BootMemAllocator) AllocFrame() (mm.Frame, *kernel.Error) {
 			(alloc.lastAllocFrame <= regionEndFrame && alloc.lastAllocFrame+1 == alloc.kernelStartFrame) {
 			//fmt.Printf("last: %d, case: 1, set last: %d\n", alloc.lastAllocFrame, alloc.kernelEndFrame+1)
 			alloc.lastAllocFrame = alloc.kernelEndFrame + 1
+
+			// If the kernel image ends before this region begins (e.g. it
+			// occupies the trailing partial page of the previous region)
+			// the first usable frame is the start of this region.
+			if alloc.lastAllocFrame < regionStartFrame {
+				alloc.lastAllocFrame = regionStartFrame
+			}
 		} else if alloc.lastAllocFrame < regionStartFrame || alloc.allocCount == 0 {
 			// we are in the previous region and need to jump to this one OR
 			// this is the first allocation and the region begins at frame 0
